@@ -366,12 +366,34 @@ fn carried_state_family() -> Vec<String> {
     v
 }
 
+/// Capture groups inside (nested) look-arounds inside an alternation whose other arm matches: the
+/// shape in which capture save/restore around a look-around becomes visible in the reported slots.
+fn lookaround_capture_pattern(rng: &mut Rng) -> String {
+    let looks = ["(?=", "(?!", "(?<=", "(?<!"];
+    let inner = ["", "(?=", "(?!", "(?<=", "(?<!"];
+    let groups = ["(a)", "(b)", "(a|b)", "(a)?", "(.)", "(?<p>a)", "(?<q>b)"];
+    let l1 = *rng.pick(&looks);
+    let l2 = *rng.pick(&inner);
+    let g1 = *rng.pick(&groups);
+    let g2 = *rng.pick(&groups);
+    let t1 = *rng.pick(&["", "a", "b"]);
+    let t2 = *rng.pick(&["", "a", "b", "ac", "."]);
+    let t3 = *rng.pick(&["ab", "a", "(c)|b", "", "(?<q>a)"]);
+    let inn = if l2.is_empty() { g2.to_string() } else { format!("{}{})", l2, g2) };
+    let body = if rng.chance(1, 2) { format!("{}{}{}", g1, inn, t1) } else { format!("{}{}{}", inn, g1, t1) };
+    format!("(?:{}{}){}|{})", l1, body, t2, t3)
+}
+
 fn api_regex(rng: &mut Rng) -> Option<(String, String, Regex, Vec<String>)> {
     if rng.chance(1, 2) {
         let fam;
+        let lk;
         let (f, p): (&str, &str) = if rng.chance(1, 3) {
             fam = carried_state_family();
             ("", rng.pick(&fam).as_str())
+        } else if rng.chance(1, 3) {
+            lk = lookaround_capture_pattern(rng);
+            ("", lk.as_str())
         } else {
             *rng.pick(API_PATTERNS)
         };
@@ -559,6 +581,13 @@ pub fn c16(rep: &mut Report, n: usize, seed: u64) {
                 };
                 rep.case(&format!("{}/{}/{}/{}", flags, pat, text, m.range.start), !names.is_empty());
                 rep.count(if names.is_empty() { "unnamed-only" } else if dup { "duplicate-names" } else { "named" });
+                // the slots themselves: the other executor reports the same captures for this match
+                let pk = find_all(&re, Exec::Pk, &text, 0, 0).0;
+                if let Some(pm) = pk.iter().find(|pm| pm.range == m.range) {
+                    if pm.captures != m.captures {
+                        rep.violation("impl-vs-impl", format!("captures {:?} but the PikeVM executor reports {:?} for the same match", m.captures, pm.captures), format!("{} {} {:?}", flags, pat, text));
+                    }
+                }
                 // the pattern's own groups, read off its source
                 let src = source_groups(&pat, flags.contains('v'));
                 if !src.iter().any(|n| n.contains('\\')) {
